@@ -279,6 +279,13 @@ func TestVerif_C15_ArchiveRandom(t *testing.T) {
 			if rng.Intn(3) == 0 {
 				cutAt = rng.Intn(600)
 			}
+			// a regular member first: otherwise a cut after leading directory entries is the
+			// no-regular-members case in disguise
+			if len(sc.Members) > 0 && sc.Members[0].Kind != "reg" {
+				cid++
+				first := c15Member{Name: verifkit.Runes(prefix + "/first.txt"), Kind: "reg", CD: ingest.Syn(cid, 10, false)}
+				sc.Members = append([]c15Member{first}, sc.Members...)
+			}
 		}
 		c15RunArchive(t, tr, base, i, sizeMax, sc, cutAt, rng)
 	}
